@@ -4,6 +4,9 @@ package c13
 
 import (
 	"fmt"
+	"hash"
+	"hash/crc32"
+	"hash/fnv"
 	"runtime"
 	"sort"
 	"sync"
@@ -685,6 +688,127 @@ func TestCustomHasher(t *testing.T) {
 		}
 		checkCustomHash(t, c)
 		ev.Case(fmt.Sprintf("custom ref=%v h=%#x n=%d", c.Reference, c.Hash, c.N), true, "custom_hasher")
+		ev.Sample(c)
+	})
+}
+
+// ---------------------------------------------------------------------------
+// A stateful user-supplied Hasher (crc32, fnv-1): successive calls on one balancer value must each hash only their own key.
+
+type hasherSeqCase struct {
+	Reference bool     `json:"reference"`
+	Hasher    string   `json:"hasher"` // crc32 | fnv1 | fnv1a
+	N         int      `json:"n"`
+	Keys      [][]byte `json:"keys"`
+}
+
+func newNamedHasher(name string) hash.Hash32 {
+	switch name {
+	case "crc32":
+		return crc32.NewIEEE()
+	case "fnv1":
+		return fnv.New32()
+	}
+	return fnv.New32a()
+}
+
+func init() {
+	ev.Register("hasher-seq", func(tb ev.TB, c hasherSeqCase) { checkHasherSeq(tb, c) })
+}
+
+func checkHasherSeq(tb ev.TB, c hasherSeqCase) {
+	var bal kafka.Balancer
+	name := "Hash"
+	if c.Reference {
+		name = "ReferenceHash"
+		bal = &kafka.ReferenceHash{Hasher: newNamedHasher(c.Hasher)}
+	} else {
+		bal = &kafka.Hash{Hasher: newNamedHasher(c.Hasher)}
+	}
+	for i, k := range c.Keys {
+		if k == nil {
+			continue // nil keys are round-robined
+		}
+		got := bal.Balance(kafka.Message{Key: k}, parts(c.N)...)
+		h := newNamedHasher(c.Hasher)
+		h.Write(k)
+		v := h.Sum32()
+		var want int
+		if c.Reference {
+			want = int((int32(v) & 0x7fffffff) % int32(c.N))
+		} else {
+			p := int32(v) % int32(c.N)
+			if p < 0 {
+				p = -p
+			}
+			want = int(p)
+		}
+		if got != want {
+			ev.Fail(tb, "hasher-seq", "custom/"+name+"/sequence", c, "%s with a %s Hasher: call %d (key %q) chose partition %d of %d, hashing that key alone gives %d (state of earlier calls leaked into the hash?)", name, c.Hasher, i, k, got, c.N, want)
+			return
+		}
+	}
+}
+
+func TestCustomHasherSequences(t *testing.T) {
+	rapid.Check(t, func(t *rapid.T) {
+		c := hasherSeqCase{Reference: rapid.Bool().Draw(t, "reference"), Hasher: rapid.SampledFrom([]string{"crc32", "fnv1", "fnv1a"}).Draw(t, "hasher"), N: rapid.IntRange(1, 64).Draw(t, "n")}
+		for i, n := 0, rapid.IntRange(2, 8).Draw(t, "calls"); i < n; i++ {
+			c.Keys = append(c.Keys, rapid.SliceOfN(rapid.Byte(), 0, 12).Draw(t, "key"))
+		}
+		checkHasherSeq(t, c)
+		ev.Case(fmt.Sprintf("hasher-seq %+v", c), true, "custom_hasher_sequence")
+		ev.Sample(c)
+	})
+}
+
+// ---------------------------------------------------------------------------
+// LeastBytes with totals beyond 2^32 bytes per partition (the messages share one buffer).
+
+type lbBigCase struct {
+	N     int   `json:"n"`
+	Sizes []int `json:"sizes_mib"` // value size of each message in MiB
+}
+
+func init() { ev.Register("lb-big", func(tb ev.TB, c lbBigCase) { checkLeastBytesBig(tb, c) }) }
+
+var bigBuf []byte
+
+func checkLeastBytesBig(tb ev.TB, c lbBigCase) {
+	if bigBuf == nil {
+		bigBuf = make([]byte, 1<<30)
+	}
+	lb := &kafka.LeastBytes{}
+	model := make([]uint64, c.N)
+	for i, mib := range c.Sizes {
+		got := lb.Balance(kafka.Message{Value: bigBuf[:mib<<20]}, parts(c.N)...)
+		if got < 0 || got >= c.N {
+			ev.Fail(tb, "lb-big", "lb/membership", c, "LeastBytes returned %d, not offered (n=%d)", got, c.N)
+			return
+		}
+		min := model[0]
+		for _, v := range model {
+			if v < min {
+				min = v
+			}
+		}
+		if model[got] != min {
+			ev.Fail(tb, "lb-big", "lb/not-least-large-totals", c, "LeastBytes call #%d picked partition %d with %d bytes routed so far; the minimum is %d (model %v)", i, got, model[got], min, model)
+			return
+		}
+		model[got] += uint64(mib) << 20
+	}
+}
+
+func TestLeastBytesLargeTotals(t *testing.T) {
+	rapid.Check(t, func(t *rapid.T) {
+		c := lbBigCase{N: rapid.IntRange(2, 3).Draw(t, "n")}
+		// enough 0.25-1 GiB messages to take every partition past 4 GiB
+		for i, n := 0, rapid.IntRange(12, 30).Draw(t, "calls"); i < n; i++ {
+			c.Sizes = append(c.Sizes, rapid.SampledFrom([]int{1024, 1024, 1023, 512, 768, 1}).Draw(t, "mib"))
+		}
+		checkLeastBytesBig(t, c)
+		ev.Case(fmt.Sprintf("lb-big %+v", c), true, "lb_totals_beyond_4GiB")
 		ev.Sample(c)
 	})
 }
